@@ -17,6 +17,7 @@ from pyvc.state import State, Exit
 from pyvc.ctx import unit
 from specs.common import *
 from specs.dsl import *
+from specs import native
 
 R = z3.RealSort()
 cosf = z3.Function("cosf", R, R); sinf = z3.Function("sinf", R, R)
@@ -163,6 +164,7 @@ def run_shape(ctx, method, mk_args):
     ctx.assume(wf, wfa)
     h0 = st.snap()
     exits = ctx.run(x, f"PathTracer.{method}", [tr] + args, {}, st)
+    ctx.replayer = native.tracer_replayer(ctx.w, method, g, h0, args)
     return st, g, tr, info, x, h0, args, exits
 
 
@@ -395,6 +397,7 @@ def u_arc_radius(ctx):
     ctx.assume(wf, w1)
     h0 = st.snap()
     exits = ctx.run(x, "PathTracer.arc_radius", [tr, target, r], {}, st)
+    ctx.replayer = native.tracer_replayer(ctx.w, "arc_radius", g, h0, [target, r])
     covers(ctx, exits)
     o0 = h0[g.oid]; cur = o0["_current_axes"]
     rel = o0["_distance_mode"].idx == ctx.w.enum_index("DistanceMode", "RELATIVE")
